@@ -67,6 +67,13 @@ func Walk(ctx context.Context, fileSystem fs.FS, prefix, delimiter, marker strin
 			root = prefix[:idx]
 		}
 	}
+	// the walk below only prunes the entries it visits: a walk that
+	// starts inside a skipped directory has nothing to list
+	for _, dir := range strings.Split(root, "/") {
+		if contains(dir, skipdirs) {
+			return WalkResults{}, nil
+		}
+	}
 
 	err := fs.WalkDir(fileSystem, root, func(path string, d fs.DirEntry, err error) error {
 		if err != nil {
